@@ -208,6 +208,32 @@ def run(tier='quick', repo=None):
                 okc, whyc = False, 'the in-band flow definition is queued only if %s as well (line %s)' % (sorted(extra), (fn.blocks[d_].get('term') or {}).get('l'))
     rep.add('R-queue', 'upipe_qsink_input:flow-def-unconditional', HOLDS if okc else VIOLATED, fn.loc,
             **({} if okc else {'what': whyc + ': a buffer input while that condition does not hold crosses the queue without its flow definition in front'}))
+    # every accepted flow definition is recorded for the queue, with the "to be sent" flag: a call that reports success without
+    # re-arming the flag (an "unchanged, nothing to send" shortcut that compares less than the whole definition) lets the next
+    # buffers cross the queue under the previous definition
+    fsd = qs.funcs.get('upipe_qsink_set_flow_def')
+    if fsd is None or not fsd.blocks:
+        raise facts.AnalysisBroken('anchor vanished: upipe_qsink_set_flow_def')
+    evs = pr.Events(fsd)
+    rearm = pr.m_store('flow_def_sent', 0)
+    if not evs.find(rearm):
+        raise facts.AnalysisBroken('anchor vanished: upipe_qsink_set_flow_def no longer resets flow_def_sent')
+    late = pr.must_precede(evs, rearm, pr.m_return('UBASE_ERR_NONE'))
+    rep.add('R-queue', 'upipe_qsink_set_flow_def:accepted-means-queued', VIOLATED if late else HOLDS, fsd.loc,
+            **({'what': 'upipe_qsink_set_flow_def can report success (line %s) without recording the definition and clearing flow_def_sent: the definition '
+                        'just accepted never crosses the queue, the buffers that follow arrive under the previous one' % late[0][2].get('l')} if late else {}))
+    # ... and a flush, which frees whatever is parked - possibly the copy of the flow definition that was waiting in front of the
+    # data, its flag already set - re-arms the flag on every path
+    ffl = qs.funcs.get('upipe_qsink_flush')
+    if ffl is None or not ffl.blocks:
+        raise facts.AnalysisBroken('anchor vanished: upipe_qsink_flush')
+    evf = pr.Events(ffl)
+    if not evf.find(pr.m_call('upipe_qsink_flush_input')):
+        raise facts.AnalysisBroken('anchor vanished: upipe_qsink_flush no longer calls upipe_qsink_flush_input')
+    latef = pr.must_precede(evf, rearm, pr.m_return())
+    rep.add('R-queue', 'upipe_qsink_flush:flush-rearms-flow-def', VIOLATED if latef else HOLDS, ffl.loc,
+            **({'what': 'upipe_qsink_flush can return (line %s) without clearing flow_def_sent: when the parked urefs it frees include the copy of the flow '
+                        'definition, the next buffer crosses the queue without a definition in front of it' % latef[0][2].get('l')} if latef else {}))
     # full queue with a possible watcher => held, not freed
     frees = ev.find(pr.m_call('uref_free'))
 
